@@ -164,7 +164,7 @@ def summaries(cfg, max_paths=400, max_expr=600):
                 targets = s.targets if isinstance(s, ast.Assign) else [s.target]
                 env2 = dict(env)
                 val = _subst(s.value, env)
-                container = isinstance(s.value, (ast.List, ast.Dict, ast.Set, ast.ListComp, ast.DictComp, ast.SetComp)) or (isinstance(s.value, ast.Call) and isinstance(s.value.func, ast.Name) and s.value.func.id in ("list", "dict", "set", "bytearray", "BytesIO", "StringIO") and not s.value.args)
+                container = isinstance(s.value, (ast.List, ast.Dict, ast.Set, ast.ListComp, ast.DictComp, ast.SetComp)) or (isinstance(s.value, ast.Subscript) and isinstance(s.value.slice, ast.Slice) and isinstance(s.value.value, (ast.List, ast.ListComp))) or (isinstance(s.value, ast.Call) and isinstance(s.value.func, ast.Name) and s.value.func.id in ("list", "dict", "set", "bytearray", "BytesIO", "StringIO") and not s.value.args)
                 for t in targets:
                     if isinstance(t, ast.Name):
                         # a fresh container keeps its name (it is mutated in place later); other values are propagated
